@@ -512,6 +512,11 @@ def gen_csv_file(rnd, toks=TOK):
     for k in range(rnd.choice([1, 2, 3, 4, 6])):
         pat = _csv_pattern(rnd, toks)
         mtext, mabs = rnd.choice(CSV_MODS)
+        if rules and rnd.random() < 0.3:
+            # the SAME pattern cell as an earlier row (two rule files merged, a merchant filed twice): every row is a rule of its own,
+            # and the earlier one wins
+            prev = rnd.choice(rules)
+            pat, mtext, mabs = prev['pattern'], prev['mods'], prev['mabs']
         is_cat = rnd.random() < 0.75
         tags = [rnd.choice(['ta', 'TB', 'x-y', 'Recurring']) for _ in range(rnd.choice([0, 0, 1, 2]) if is_cat else rnd.choice([1, 2]))]
         rules.append({'pattern': pat, 'mods': mtext, 'mabs': mabs, 'mer': 'Merch %d' % (k + 1), 'cat': rnd.choice(CATS) if is_cat else '',
